@@ -1135,6 +1135,76 @@ theorem C33_partial (cfg : Cfg) (hb : cfg.buffer = false) (hd : cfg.dedup = true
       exact ih _ _ (fun x hx => hok x (List.mem_cons_of_mem _ hx)) h1.1 h1.2
   exact key ops {} _ hok ⟨Inv_empty, rfl⟩ (fun j => by simp [live, Sop.Vector.get, afind])
 
+/-! ## The buffered stage (before the first Optimize) also behaves like the plain map -/
+
+def NoOptimize : Op → Prop
+  | .optimize _ _ _ => False
+  | _ => True
+
+theorem upsertItem_buffered_spec (cfg : Cfg) (s : State) (it : Item) (hb : cfg.buffer = true)
+    (m : Spec) (hm : ∀ j, live cfg s j = m j) (j : Id) :
+    live cfg (upsertItem cfg s it) j = if j = it.id then some (it.vec, it.payload) else m j := by
+  by_cases h : j = it.id
+  · subst h; simp only [if_true]; exact C33_ops_upsert_buffered cfg s it hb
+  · simp only [h, if_false, ← hm]; exact C33_ops_upsert_other cfg s it j h
+
+theorem foldItems_buffered_spec (cfg : Cfg) (items : List Item) (hb : cfg.buffer = true) (s : State) (m : Spec)
+    (hbad : s.bad = false) (hm : ∀ j, live cfg s j = m j) :
+    (items.foldl (upsertItem cfg) s).bad = false ∧
+    ∀ j, live cfg (items.foldl (upsertItem cfg) s) j =
+      (items.foldl (fun m it => fun j => if j = it.id then some (it.vec, it.payload) else m j) m) j := by
+  induction items generalizing s m with
+  | nil => exact ⟨hbad, hm⟩
+  | cons it r ih =>
+    simp only [List.foldl_cons]
+    apply ih
+    · simp [upsertItem, hb, upsertBuffered, hbad]
+    · exact upsertItem_buffered_spec cfg s it hb m hm
+
+/-- **C33 (buffered stage)**: with the ingestion buffer on (no count tracking), any program of Upsert / UpsertBatch /
+    Delete answers `Get` exactly as the plain map does. What breaks is the step out of this stage: `C33_counterexample`. -/
+theorem C33_buffer_stage (cfg : Cfg) (hb : cfg.buffer = true) (ht : cfg.tracking = false)
+    (ops : List Op) (hno : ∀ o ∈ ops, NoOptimize o) :
+    ∀ j, live cfg (ops.foldl (step cfg) {}) j = ops.foldl specStep (fun _ => none) j := by
+  have key : ∀ (ops : List Op) (s : State) (m : Spec), (∀ o ∈ ops, NoOptimize o) → s.bad = false → (∀ j, live cfg s j = m j) →
+      ∀ j, live cfg (ops.foldl (step cfg) s) j = ops.foldl specStep m j := by
+    intro ops
+    induction ops with
+    | nil => intro s m _ _ hm; exact hm
+    | cons o r ih =>
+      intro s m hno hbad hm
+      simp only [List.foldl_cons]
+      have hr : ∀ x ∈ r, NoOptimize x := fun x hx => hno x (List.mem_cons_of_mem _ hx)
+      cases o with
+      | upsert it =>
+        have hb1 : (upsertItem cfg s it).bad = false := by simp [upsertItem, hb, upsertBuffered, hbad]
+        have hs : step cfg s (.upsert it) = upsertItem cfg s it := by
+          simp only [step, upsert]; exact commit_good cfg s _ ht hb1
+        rw [hs]
+        exact ih _ _ hr hb1 (upsertItem_buffered_spec cfg s it hb m hm)
+      | batch items =>
+        have hs1 : (if (!cfg.buffer && s.cents.isEmpty && items.any (fun it => decide (it.ecid = 0)) && !items.isEmpty) = true
+            then { s with cents := seedCentroids items.length } else s) = s := by simp [hb]
+        have h := foldItems_buffered_spec cfg items hb s m hbad hm
+        have hs : step cfg s (.batch items) = items.foldl (upsertItem cfg) s := by
+          simp only [step, upsertBatch, hs1]; exact commit_good cfg s _ ht h.1
+        rw [hs]
+        exact ih _ _ hr h.1 h.2
+      | delete i =>
+        have hbad' : (delete cfg s i).1.bad = false := by
+          unfold delete
+          cases hc : afind s.content i with
+          | none => exact hbad
+          | some kp => obtain ⟨k, p⟩ := kp; simp [hb, hbad]
+        apply ih _ _ hr hbad'
+        intro j
+        simp only [specStep]
+        rw [C33_ops_delete]; split
+        · rfl
+        · exact hm j
+      | optimize c g l => exact absurd (hno _ List.mem_cons_self) (by simp [NoOptimize])
+  exact key ops {} _ hno rfl (fun j => by simp [live, Sop.Vector.get, afind])
+
 /-! ## Where the full-strength statement fails on the code as it is (witnesses replayed by the harness corpus) -/
 
 /-- the full-strength statement about `Optimize`: in *every* configuration a successful Optimize changes no answer of
